@@ -1113,7 +1113,7 @@ class TT():
 
             S = TT(cores)
             S.reduce_dims([i for i in range(len(self.__N)) if i not in index])
-            if len(S.cores) == 1 and tn.numel(S.cores[0]) == 1:
+            if len(S.cores) == 1 and tn.numel(S.cores[0]) == 1 and all(i in index for i in range(len(self.__N))):
                 S = tn.squeeze(S.cores[0])
         return S
 
